@@ -213,13 +213,13 @@ Proof.
       rewrite (skipn_nth_error _ _ _ En') in Il. now inversion Il. }
     assert (Hdn : dn_ok dn (upd change)).
     { rewrite Forall_forall in Id. apply Id. apply in_map. eapply nth_error_In. exact En. }
-    pose proof (lock_ref_and_apply_change_spec dn fuel draws st mode pbuf change g d Hfm Hlock Hdn) as S.
+    pose proof (lock_ref_and_apply_change_spec dn fuel draws st mode pbuf change g (d && packable (name_of change)) Hfm Hlock Hdn) as S.
     assert (Hpar : match parent_index change with Some c => c < length us /\ c + 2 <= fuel | None => 1 <= fuel end).
     { destruct (parent_index change) as [p|] eqn:Ep; [|lia].
       assert (p < 0 + cid).
       { eapply below_nth; [exact Ib|]. rewrite nth_error_map, En. cbn. now rewrite Ep. }
       lia. }
-    destruct (lock_ref_and_apply_change fuel draws st mode pbuf change g d) as [change'|e| |]; auto.
+    destruct (lock_ref_and_apply_change fuel draws st mode pbuf change g (d && packable (name_of change))) as [change'|e| |]; auto.
     + destruct S as (S1 & S2 & S3 & S4 & S5 & S6 & S7 & S8).
       set (us1 := set_nth cid change' us).
       assert (E1 : map parent_index us1 = map parent_index us) by (eapply map_set_nth_same; eauto).
